@@ -45,6 +45,49 @@ Check dlog_mutation_char : forall G (O : group_ops G) H q, 1 < q -> group_laws q
     fst (verify G O H q (t', s) y' B pre') = true -> (c0 * x - d - c' * x') mod q = 0.
 Print Assumptions dlog_mutation_char.
 
+(** Mutation of the base point (session 3): the honest proof for y = x*B checked against B' = b*B, under any transcript
+    prefix, is accepted only if the fresh challenge c' (oracle value on a query containing B') satisfies one linear equation ... *)
+Theorem dlog_base_mutation_char : forall G (O : group_ops G) H q, group_laws q O ->
+  forall x r B pre b pre', full_order G O q B ->
+    let t := g_smul O r B in let y := g_smul O x B in
+    let c0 := fst (fiat_shamir G O H q y t B pre) in
+    let s := (r + c0 * x) mod q in
+    let B' := g_smul O b B in
+    let c' := fst (fiat_shamir G O H q y t B' pre') in
+    fst (verify G O H q (t, s) y B' pre') = true -> ((r + c0 * x) * b - r - c' * x) mod q = 0.
+Proof. exact dlog_base_mutation_char_lem. Qed.
+Check dlog_base_mutation_char : forall G (O : group_ops G) H q, group_laws q O ->
+  forall x r B pre b pre', full_order G O q B ->
+    let t := g_smul O r B in let y := g_smul O x B in
+    let c0 := fst (fiat_shamir G O H q y t B pre) in
+    let s := (r + c0 * x) mod q in
+    let B' := g_smul O b B in
+    let c' := fst (fiat_shamir G O H q y t B' pre') in
+    fst (verify G O H q (t, s) y B' pre') = true -> ((r + c0 * x) * b - r - c' * x) mod q = 0.
+Print Assumptions dlog_base_mutation_char.
+
+(** ... which for a prime order and a non-zero secret has exactly one solution: any c'' in [0,q) solving the equation IS c'. *)
+Theorem dlog_base_mutation_single_point : forall G (O : group_ops G) H q, 1 < q -> group_laws q O ->
+  forall x r B pre b pre' c'', prime q -> full_order G O q B -> x mod q <> 0 ->
+    let t := g_smul O r B in let y := g_smul O x B in
+    let c0 := fst (fiat_shamir G O H q y t B pre) in
+    let s := (r + c0 * x) mod q in
+    let B' := g_smul O b B in
+    let c' := fst (fiat_shamir G O H q y t B' pre') in
+    fst (verify G O H q (t, s) y B' pre') = true ->
+    0 <= c'' < q -> ((r + c0 * x) * b - r - c'' * x) mod q = 0 -> c' = c''.
+Proof. exact dlog_base_mutation_single_point_lem. Qed.
+Check dlog_base_mutation_single_point : forall G (O : group_ops G) H q, 1 < q -> group_laws q O ->
+  forall x r B pre b pre' c'', prime q -> full_order G O q B -> x mod q <> 0 ->
+    let t := g_smul O r B in let y := g_smul O x B in
+    let c0 := fst (fiat_shamir G O H q y t B pre) in
+    let s := (r + c0 * x) mod q in
+    let B' := g_smul O b B in
+    let c' := fst (fiat_shamir G O H q y t B' pre') in
+    fst (verify G O H q (t, s) y B' pre') = true ->
+    0 <= c'' < q -> ((r + c0 * x) * b - r - c'' * x) mod q = 0 -> c' = c''.
+Print Assumptions dlog_base_mutation_single_point.
+
 (** Context binding for non-zero secrets and prime order: replay under another transcript is accepted
     only if the two challenges (oracle values on different queries) coincide. *)
 Theorem dlog_context_binding : forall G (O : group_ops G) H q, 1 < q -> group_laws q O ->
